@@ -232,6 +232,16 @@ func (r *Report) finish() int {
 		os.WriteFile(findingsPath, b, 0o644)
 	}
 
+	if os.Getenv("RULINT_EMIT_KNOWN") != "" {
+		// developer aid: print candidate known-findings lines (to be triaged by hand, never auto-added)
+		for _, o := range unlisted {
+			fmt.Printf("CANDIDATE finding: property=%s key=%s :: %s\n", r.Property, o.Key, o.Detail)
+		}
+	}
+	{
+		b, _ := json.MarshalIndent(map[string]interface{}{"property_id": r.Property, "tier": r.Tier, "obligations": r.Obs}, "", " ")
+		os.WriteFile(filepath.Join(vd, "evidence", r.Property+".obligations.json"), b, 0o644)
+	}
 	exit := 0
 	if len(below) > 0 {
 		for _, b := range below {
